@@ -25,41 +25,123 @@ import GunYu.Proofs.Replica
 namespace GunYu.Props.C16
 open GunYu GunYu.Replica
 
-/-- **follower_prefix_of_leader** (invariant, one session, any interruption point).
-    If the leader's cache is a copy of history and everything the follower holds under
-    run id `id` is a copy of history `id`, then after a session cut after ANY number of
+/-- **follower_prefix_of_leader** (invariant, one session, any interruption point, a leader
+    that changes under the session). `V n` is the leader's state as the `n`-th request of
+    the session reads it, at four separate points of `ServiceReplica`/`Handle` (gate and
+    self inspection; input ids and `StartPoint`; `IsValidOffset`; `NewReader`) — the
+    leader's own input may switch run id, re-snapshot or collect in between. If every cache
+    a reader is opened on is a copy of history and everything the follower holds under run
+    id `id` is a copy of history `id`, then after a session cut after ANY number of
     messages, with ANY chunking, the same holds — for every id separately, so bytes never
     move from one id to another — and the store stays well formed. -/
-theorem follower_prefix_of_leader {β : Type} (h : Hist β) (bk : Backend) (L : Leader β)
+theorem follower_prefix_of_leader {β : Type} (h : Hist β) (bk : Backend) (V : Nat → View β)
     (F : Store β) (ch : List Nat) (cut lost fuel : Nat)
-    (hL : L.Faithful h) (hq : L.cur ≠ "?") (hwf : WF bk F) (id : Id)
+    (hL : ∀ n, (V n).l4.Faithful h) (hq : (V 0).l2.cur ≠ "?") (hwf : WF bk F) (id : Id)
     (hF : FaithfulAt h F.dirs id) :
-    FaithfulAt h (session bk L F ch cut lost fuel).store.dirs id ∧
-      WF bk (session bk L F ch cut lost fuel).store :=
-  (session_ok bk L F ch cut lost fuel id hL hq hwf hF).symm
+    FaithfulAt h (sessionV bk V F ch cut lost fuel).store.dirs id ∧
+      WF bk (sessionV bk V F ch cut lost fuel).store :=
+  (session_ok bk V F ch cut lost fuel id hL hq hwf hF).symm
 
 /-- one follower session as a state transformer -/
-def run {β : Type} (bk : Backend) (F : Store β) (r : Leader β × List Nat × Nat × Nat × Nat) : Store β :=
-  (session bk r.1 F r.2.1 r.2.2.1 r.2.2.2.1 r.2.2.2.2).store
+def run {β : Type} (bk : Backend) (F : Store β) (r : (Nat → View β) × List Nat × Nat × Nat × Nat) :
+    Store β :=
+  (sessionV bk r.1 F r.2.1 r.2.2.1 r.2.2.2.1 r.2.2.2.2).store
 
-/-- **follower_prefix_of_leader**, any sequence of sessions: the follower retries against
-    leaders in arbitrary (faithful) states — grown, collected, re-snapshotted, under
-    another run id — each session interrupted anywhere. Whatever it stores under any id
-    is byte-identical to history at the same offsets. -/
-theorem follower_prefix_of_leader_runs {β : Type} (h : Hist β) (bk : Backend)
-    (runs : List (Leader β × List Nat × Nat × Nat × Nat)) (F : Store β)
-    (hL : ∀ r ∈ runs, r.1.Faithful h ∧ r.1.cur ≠ "?") (hwf : WF bk F)
-    (hF : ∀ id, FaithfulAt h F.dirs id) :
-    (∀ id, FaithfulAt h (runs.foldl (run bk) F).dirs id) ∧ WF bk (runs.foldl (run bk) F) := by
-  induction runs generalizing F with
-  | nil => exact ⟨hF, hwf⟩
-  | cons r rs ih =>
-    have hr := hL r (List.mem_cons_self ..)
+/-- what can happen to a follower's cache between two looks at it -/
+inductive Step (β : Type)
+  /-- one pass of `ReplicaFollower.Run` (handshake … first error), any leader, any cut -/
+  | sess (r : (Nat → View β) × List Nat × Nat × Nat × Nat)
+  /-- (disk) the process restarts: the storer forgets its current id, directories stay -/
+  | restart
+  /-- the follower was leader for a while: its own input appended to the current id -/
+  | ownAppend (p : List β)
+
+def step {β : Type} (bk : Backend) (F : Store β) : Step β → Store β
+  | .sess r => run bk F r
+  | .restart => match bk with
+    | .disk => { F with cur := "" }
+    | .mem => ⟨"", []⟩
+  | .ownAppend p => match F.curData with
+    | some d => F.setCur (some { d with bytes := d.bytes ++ p })
+    | none => F
+
+/-- the step keeps faithfulness: sessions against faithful leaders; what the follower's own
+    input appends as leader is history of the current id -/
+def Step.Ok {β : Type} (h : Hist β) (F : Store β) : Step β → Prop
+  | .sess r => (∀ n, (r.1 n).l4.Faithful h) ∧ (r.1 0).l2.cur ≠ "?"
+  | .restart => True
+  | .ownAppend p => ∀ d, F.curData = some d → p = hseg h F.cur d.right p.length
+
+theorem step_ok {β : Type} (h : Hist β) (bk : Backend) (F : Store β) (st : Step β)
+    (hst : st.Ok h F) (hwf : WF bk F) (hF : ∀ id, FaithfulAt h F.dirs id) :
+    (∀ id, FaithfulAt h (step bk F st).dirs id) ∧ WF bk (step bk F st) := by
+  cases st with
+  | sess r =>
+    exact ⟨fun id => (follower_prefix_of_leader h bk r.1 F _ _ _ _ hst.1 hst.2 hwf id (hF id)).1,
+      (follower_prefix_of_leader h bk r.1 F _ _ _ _ hst.1 hst.2 hwf "" (hF "")).2⟩
+  | restart =>
+    cases bk with
+    | disk => exact ⟨hF, ⟨Or.inl rfl, by simp [step]⟩⟩
+    | mem =>
+      refine ⟨?_, ?_, fun _ => rfl, by simp [step]⟩
+      · intro id d hd; cases hd
+      · intro p hp; cases hp
+  | ownAppend p =>
+    simp only [step]
+    cases hcd : F.curData with
+    | none => exact ⟨hF, hwf⟩
+    | some d =>
+      simp only
+      have hmem := curData_mem hcd
+      refine ⟨fun id => setCur_faithful _ _ _ ?_ (hF id), ?_⟩
+      · intro hid d' hd'
+        cases hd'
+        have hdf := hF id d (hid ▸ hmem)
+        refine ⟨?_, hdf.2⟩
+        simp only [List.length_append]
+        rw [hseg_append, ← hdf.1, hid]
+        congr 1
+        exact hst d hcd
+      · -- well-formedness: the current id keeps its directory
+        cases bk with
+        | disk =>
+          refine ⟨Or.inr ?_, hwf.2⟩
+          rw [has_iff_get, getD_isSome]
+          exact ⟨(F.cur, some { d with bytes := d.bytes ++ p }), by simp [Store.setCur], rfl⟩
+        | mem =>
+          obtain ⟨hk, hn, hq⟩ := hwf
+          refine ⟨?_, ?_, hq⟩
+          · intro q hq'
+            simp only [Store.setCur, List.mem_cons] at hq'
+            rcases hq' with rfl | hq'
+            · rfl
+            · exact hk q (mem_dropKey.mp hq').1
+          · intro h0
+            have : F.dirs = [] := hn h0
+            rw [this] at hmem; cases hmem
+
+/-- **follower_prefix_of_leader**, any history of the follower: sessions against leaders in
+    arbitrary (faithful, changing) states — grown, collected, re-snapshotted, under another
+    run id — each interrupted anywhere, process restarts, and periods as leader in between.
+    Whatever the follower stores under any id is byte-identical to history at the same
+    offsets. -/
+theorem follower_prefix_of_leader_runs {β : Type} (h : Hist β) (bk : Backend) :
+    ∀ (steps : List (Step β)) (F : Store β),
+      (∀ (pre : List (Step β)) (st : Step β) (post : List (Step β)), steps = pre ++ st :: post →
+        st.Ok h (pre.foldl (step bk) F)) →
+      WF bk F → (∀ id, FaithfulAt h F.dirs id) →
+      (∀ id, FaithfulAt h (steps.foldl (step bk) F).dirs id) ∧ WF bk (steps.foldl (step bk) F) := by
+  intro steps
+  induction steps with
+  | nil => intro F _ hwf hF; exact ⟨hF, hwf⟩
+  | cons st rest ih =>
+    intro F hok hwf hF
+    have h1 := step_ok h bk F st (hok [] st rest rfl) hwf hF
     simp only [List.foldl_cons]
-    apply ih
-    · intro r' hr'; exact hL r' (List.mem_cons_of_mem _ hr')
-    · exact (follower_prefix_of_leader h bk r.1 F _ _ _ _ hr.1 hr.2 hwf "" (hF "")).2
-    · intro id; exact (follower_prefix_of_leader h bk r.1 F _ _ _ _ hr.1 hr.2 hwf id (hF id)).1
+    apply ih _ _ h1.2 h1.1
+    intro pre st' post he
+    have := hok (st :: pre) st' post (by rw [he]; rfl)
+    simpa using this
 
 /-- the stream bytes of a faithful cache, spelled out: the byte stored at offset `o` of
     run id `id` is history's byte at `(id, o)`; stored bytes are one contiguous range
@@ -76,10 +158,10 @@ theorem faithful_bytes {β : Type} (h : Hist β) (id : Id) (d : Data β) (hd : d
     the data it holds (or on an empty cache) — for ANY leader state, faithful or not; the
     sentinel outcome `discont`, which stands for overlapping / disjoint segments on disk
     and for the memory backend's refusal, is unreachable. -/
-theorem follower_contiguous {β : Type} (bk : Backend) (L : Leader β) (F : Store β)
-    (ch : List Nat) (cut lost fuel : Nat) (hq : L.cur ≠ "?") (hwf : WF bk F) :
-    (session bk L F ch cut lost fuel).cls ≠ .discont :=
-  session_nodiscont bk L F ch cut lost fuel hq hwf
+theorem follower_contiguous {β : Type} (bk : Backend) (V : Nat → View β) (F : Store β)
+    (ch : List Nat) (cut lost fuel : Nat) (hq : (V 0).l2.cur ≠ "?") (hwf : WF bk F) :
+    (sessionV bk V F ch cut lost fuel).cls ≠ .discont :=
+  session_nodiscont bk V F ch cut lost fuel hq hwf
 
 /-- **unjoinable_discards**: the follower's current copy belongs to run id `y`, the leader
     announces another id `x` for which the follower holds nothing. `preSync` then leaves
@@ -141,6 +223,163 @@ theorem unjoinable_discards {β : Type} (bk : Backend) (F : Store β) (x y : Id)
     rw [hpre]
     exact ⟨rfl, by simp [Store.curData, Store.get, getD], by simp [getD], rfl⟩
 
+/-- **others_untouched**: whatever the leader does and wherever the session is cut, every
+    directory of the follower afterwards is the one of the id announced in the handshake or
+    is, unchanged, a directory it had before: a session never creates, fills or relabels a
+    directory of another id. -/
+theorem others_untouched {β : Type} (bk : Backend) (V : Nat → View β) (F : Store β)
+    (ch : List Nat) (cut lost fuel : Nat) (hq : (V 0).l2.cur ≠ "?") (hwf : WF bk F) :
+    ∀ p ∈ (sessionV bk V F ch cut lost fuel).store.dirs, p.1 = (V 0).l2.cur ∨ p ∈ F.dirs :=
+  session_ksub bk V F ch cut lost fuel hq hwf
+
+/-- **unjoinable_discards**, session level: the leader serves `x`, the follower's current
+    copy is `y ≠ x` and it holds nothing for `x`. As soon as the handshake has been delivered
+    (`cut ≥ 1`), and wherever the session is cut afterwards, no directory `y` is left — the
+    old copy is gone for good, it does not come back under any id. -/
+theorem unjoinable_discards_session {β : Type} (bk : Backend) (L : Leader β) (F : Store β)
+    (ch : List Nat) (c lost fuel : Nat) (x y : Id) (hs : Serves L x)
+    (hx1 : x ≠ "") (hx2 : x ≠ "?") (hy : y = F.cur) (hy0 : y ≠ "") (hyx : y ≠ x)
+    (hwf : WF bk F) (hnox : getD F.dirs x = none) :
+    getD (session bk L F ch (c + 1) lost fuel).store.dirs y = none := by
+  rw [session_static hs hx1, Out.pre_store]
+  have hp := preSync_ok bk F x (latest L.data) hx1 hx2 hwf
+  have hu := unjoinable_discards bk F x y (latest L.data) hx1 hx2 hy hy0 hyx hwf hnox
+  have hk := syncLoop_ksub bk (fun _ => View.const L) lost x hx1 hx2 fuel 1 c ch _ _ hp.1 hp.2.1
+  rw [getD_none]
+  intro p hp' hpy
+  rcases hk p hp' with h | h
+  · exact hyx (hpy ▸ h)
+  · exact (getD_none.mp hu.2.2.1) p h hpy
+
+/-- **gap_discards** (`preSync`, the 10 MiB rule): same run id, the leader is more than
+    10 MiB ahead of the follower's end: the follower deletes its copy and asks for the
+    leader's offset. (At 10 MiB or less it keeps it and asks for its own end.) -/
+theorem gap_discards {β : Type} (bk : Backend) (F : Store β) (x : Id) (e : Data β) (loff : Int)
+    (hx1 : x ≠ "") (hx2 : x ≠ "?") (hwf : WF bk F) (hF : F.get x = some (some e))
+    (hm : bk = .mem → F.cur = x) :
+    (loff - (e.right : Int) > tenMB →
+        (preSync bk F x loff).1.curData = none ∧ (preSync bk F x loff).1.cur = x ∧
+          (preSync bk F x loff).2 = (x, loff)) ∧
+      (¬ loff - (e.right : Int) > tenMB →
+        (preSync bk F x loff).1 = ⟨x, F.dirs⟩ ∧ (preSync bk F x loff).2 = (x, (e.right : Int))) := by
+  rw [preSync_sameid bk F x e loff hx1 hx2 hwf hF hm]
+  constructor
+  · intro hg
+    rw [if_pos hg]
+    have hr := reset_at bk ⟨x, F.dirs⟩ x hx1 hx2 (at_sameid bk F x e hwf hF hm)
+    exact ⟨hr.2.2, hr.1.1, rfl⟩
+  · intro hg
+    rw [if_neg hg]
+    exact ⟨rfl, rfl⟩
+
+/-- **collected_discards**: same run id, but the follower's end lies before everything the
+    leader still holds and the leader has no snapshot (the position was collected). With
+    the handshake and the announcement delivered (`cut ≥ 2`), whatever the follower holds
+    for `x` afterwards starts at the leader's newest offset: the old part, which could not
+    be joined, is gone, and no snapshot is kept. -/
+theorem collected_discards {β : Type} (bk : Backend) (L : Leader β) (F : Store β)
+    (ch : List Nat) (c lost f : Nat) (x : Id) (d e : Data β) (hs : Serves L x)
+    (hx1 : x ≠ "") (hx2 : x ≠ "?") (hd : L.data = some d) (hsn : d.snap = none)
+    (hw : L.hasSegs d = true) (hwf : WF bk F) (hF : F.get x = some (some e))
+    (hm : bk = .mem → F.cur = x) (hgap : e.right < d.base) :
+    ∀ e', (session bk L F ch (c + 2) lost (f + 1)).store.curData = some e' →
+      e'.base = d.right ∧ e'.snap = none := by
+  have hlat : latest L.data = (d.right : Int) := by rw [hd]; rfl
+  have hat := at_sameid bk F x e hwf hF hm
+  have hdr : d.base ≤ d.right := by simp [Data.right]
+  rw [session_static hs hx1, Out.pre_store, hlat, preSync_sameid bk F x e _ hx1 hx2 hwf hF hm]
+  -- in both branches of preSync the answer is the stream from the leader's newest offset
+  have key : ∀ (G : Store β) (roff : Int), At bk G x → (roff = (d.right : Int) ∨ roff = (e.right : Int)) →
+      (∀ e0, G.curData = some e0 → (e0.right : Int) < (d.right : Int)) →
+      ∀ e', (syncLoopV bk (fun _ => View.const L) lost x (f + 1) 1 (c + 1) ch G (x, roff)).store.curData = some e' →
+        e'.base = d.right ∧ e'.snap = none := by
+    intro G roff hG hroff hbey e' he'
+    have hle : ¬ roff - latest L.data > 0 := by
+      rw [hlat]; rcases hroff with h | h <;> rw [h] <;> omega
+    have hoff : (if L.valid x roff then roff else latest L.data) = (d.right : Int) := by
+      rcases hroff with h | h
+      · rw [h, hlat]; split <;> rfl
+      · have : L.valid x roff = false := by
+          simp only [Leader.valid, hs.cur, decide_true, Bool.true_and, hd, Leader.inAof, inRdb, hsn,
+            Option.isSome_none, Bool.false_and, Bool.or_false, h]
+          have : ¬ ((d.base : Int) ≤ (e.right : Int)) := by omega
+          simp [this]
+        rw [this, hlat]; rfl
+    unfold syncLoopV at he'
+    simp only [meta_static hs hx1 hx2 roff ch hle, hoff, sendData_newest hs.cur d hd hw ch, respErr,
+      Out.pre_store, reduceCtorEq, if_false, if_true] at he'
+    have := aofSync_fresh bk G x ⟨.info, "", true, d.right, -1, []⟩ _ .blocks c lost hx1 hx2 hG
+      (by intro e0 h0; exact hbey e0 h0) e' he'
+    simpa using this
+  split
+  · have hr := reset_at bk ⟨x, F.dirs⟩ x hx1 hx2 hat
+    exact key _ _ hr.1 (Or.inl rfl) (by intro e0 h0; rw [hr.2.2] at h0; cases h0)
+  · refine key _ _ hat (Or.inr rfl) ?_
+    intro e0 h0
+    rw [curData_sameid F x e hF] at h0
+    cases h0
+    omega
+
+/-- **clear_deletes**: the leader answers the request with `CLEAR` (here: it holds nothing
+    and no writer is open, so `NewReader` fails). The follower deletes the run id and ends
+    the attempt: nothing is left under `x`, no snapshot is invented. -/
+theorem clear_deletes {β : Type} (bk : Backend) (L : Leader β) (F : Store β)
+    (ch : List Nat) (c lost f : Nat) (x : Id) (hs : Serves L x)
+    (hx1 : x ≠ "") (hx2 : x ≠ "?") (hd : L.data = none) (hwf : WF bk F)
+    (hnot : ∀ e, F.get x = some (some e) → False) :
+    (session bk L F ch (c + 2) lost (f + 1)).cls = .clear ∧
+      (session bk L F ch (c + 2) lost (f + 1)).store.cur = "" ∧
+      ∀ e', (x, some e') ∉ (session bk L F ch (c + 2) lost (f + 1)).store.dirs := by
+  have hlat : latest L.data = -1 := by rw [hd]; rfl
+  have hp := preSync_ok bk F x (-1) hx1 hx2 hwf
+  have hoff := preSync_nodata_off bk F x hx1 hx2 hwf hnot
+  rw [session_static hs hx1, hlat]
+  generalize preSync bk F x (-1) = P at hp hoff
+  obtain ⟨G, fsp⟩ := P
+  obtain ⟨hG, hfx, _⟩ := hp
+  simp only at hG hfx hoff
+  have hle : ¬ fsp.2 - latest L.data > 0 := by rw [hlat, hoff]; omega
+  unfold syncLoopV
+  rw [hfx]
+  simp only [meta_static hs hx1 hx2 fsp.2 ch hle, Leader.sendData, hd, ctl, respErr, Out.pre, if_true]
+  have hdel : (delRunId bk G x).cur = "" ∧ ∀ e', (x, some e') ∉ (delRunId bk G x).dirs := by
+    cases bk with
+    | disk =>
+      rw [delRunId_disk_has (special_false hx1 hx2) (hG.2.1 rfl)]
+      exact ⟨rfl, fun e' h => (mem_dropKey.mp h).2 rfl⟩
+    | mem =>
+      rw [← hG.1, delRunId_mem_cur]
+      exact ⟨rfl, fun e' h => by cases h⟩
+  exact ⟨by first | rfl | trivial, hdel.1, hdel.2⟩
+
+/-- **resynchronises** (progress, not only safety): a leader that serves `x`, holds `d` and
+    has stream segments; a follower that is not ahead of it — whatever else it holds: nothing,
+    a prefix, a position already collected, another id, a copy more than 10 MiB behind. If
+    the session is not cut before everything the leader has was delivered and nothing is
+    lost, it ends in the stream transfer with the follower's copy of `x` ending exactly at
+    the leader's end, including the bytes that arrived during the session (after at most
+    one snapshot transfer; `fuel ≥ 2` metaSync rounds are enough). -/
+theorem resynchronises {β : Type} (bk : Backend) (L : Leader β) (F : Store β) (ch : List Nat)
+    (c fuel : Nat) (x : Id) (d : Data β) (hs : Serves L x) (hx1 : x ≠ "") (hx2 : x ≠ "?")
+    (hd : L.data = some d) (hw : L.hasSegs d = true) (hwf : WF bk F)
+    (hna : ∀ e, F.get x = some (some e) → e.right ≤ d.right)
+    (hc : (d.snap.getD []).length + 1 + d.bytes.length + L.tail.length ≤ c) :
+    Reached L d (session bk L F ch (c + 2) 0 (fuel + 2)) := by
+  have hlat : latest L.data = (d.right : Int) := by rw [hd]; rfl
+  rw [session_static hs hx1, hlat]
+  have hp := preSync_ok bk F x (d.right : Int) hx1 hx2 hwf
+  have hpos := preSync_pos bk F x (d.right : Int) hx1 hx2 hwf
+  have hle := preSync_off_le bk F x (d.right : Int) hx1 hx2 hwf (by omega)
+    (by intro e he; have := hna e he; omega)
+  generalize preSync bk F x (d.right : Int) = P at hp hpos hle
+  obtain ⟨G, fx, roff⟩ := P
+  obtain ⟨hG, hfx, _⟩ := hp
+  simp only at hG hfx hpos hle
+  subst hfx
+  have := syncLoop_reach bk L fx d hs hx1 hx2 hd hw fuel 1 c ch G roff hG hle
+    (by intro e he; exact (hpos e he).symm) hc
+  simpa [Reached] using this
+
 /-- keeping bytes under another id is faithful exactly when the two histories agree on
     the kept range (the PSYNC2 fail-over prefix) — which no history-independent rule can
     know -/
@@ -156,7 +395,7 @@ theorem relabel_faithful_iff_join {β : Type} (h : Hist β) (old new : Id) (d : 
     leadership" and its cache is untouched. -/
 theorem ahead_gets_handover {β : Type} (bk : Backend) (L : Leader β) (F : Store β)
     (ch : List Nat) (cut lost fuel : Nat) (x : Id) (tl : List Id) (d : Data β)
-    (hs : L.started = true) (hi : L.inputIds = x :: tl) (hc : L.cur = x)
+    (hg : L.serving = true) (hs : L.started = true) (hi : L.inputIds = x :: tl) (hc : L.cur = x)
     (hx1 : x ≠ "") (hx2 : x ≠ "?") (hwf : WF bk F)
     (hF : F.get x = some (some d)) (hm : bk = .mem → F.cur = x)
     (hahead : (d.right : Int) > latest L.data) (hcut : 2 ≤ cut) (hfuel : 1 ≤ fuel) :
@@ -171,7 +410,7 @@ theorem ahead_gets_handover {β : Type} (bk : Backend) (L : Leader β) (F : Stor
   have hhx : F.has x = true := by simp [Store.has, hF]
   -- handshake
   have hh : L.handle "" 0 ch = ⟨[⟨.info, x, false, latest L.data, 0, []⟩], .eof, ch⟩ := by
-    simp [Leader.handle, hs, hi, hc]
+    simp [Leader.handle, View.handle, View.const, hg, hs, hi, hc]
   -- preSync: the follower's own end offset is kept
   have hpre : preSync bk F x (latest L.data) = (⟨x, F.dirs⟩, (x, (d.right : Int))) := by
     have hst : startPoint bk F x = (⟨x, F.dirs⟩, (x, (d.right : Int))) := by
@@ -194,8 +433,11 @@ theorem ahead_gets_handover {β : Type} (bk : Backend) (L : Leader β) (F : Stor
   -- metaSync: HANDOVER
   have hh2 : L.handle x (d.right : Int) ch = ⟨[⟨.handover, x, false, latest L.data, 0, []⟩], .err, ch⟩ := by
     have : ((x = "") || (x = "?")) = false := by simp [hx1, hx2]
-    simp [Leader.handle, hs, hi, hc, this, hahead]
-  simp only [session, hh, respErr, Out.pre, hx1, if_false, hpre, syncLoop, hh2]
+    simp [Leader.handle, View.handle, View.const, hg, hs, hi, hc, this, hahead]
+  have hh' : (View.const L).handle "" 0 ch = ⟨[⟨.info, x, false, latest L.data, 0, []⟩], .eof, ch⟩ := hh
+  have hh2' : (View.const L).handle x (d.right : Int) ch =
+      ⟨[⟨.handover, x, false, latest L.data, 0, []⟩], .err, ch⟩ := hh2
+  simp only [session, sessionV, hh', respErr, Out.pre, hx1, if_false, hpre, syncLoopV, hh2']
   simp
 
 /-! ### non-vacuity: concrete states meet the hypotheses and show the behaviours -/
@@ -207,7 +449,7 @@ def hEx : Hist Nat where
   byte := fun id o => if id = "idA" then o else o + 500
   snap := fun id o => if id = "idA" then [o, o] else [o + 500]
 
-def lEx : Leader Nat := ⟨true, ["idA"], "idA", some ⟨10, [10, 11, 12, 13, 14], some [10, 10]⟩, true, []⟩
+def lEx : Leader Nat := ⟨true, true, ["idA"], "idA", some ⟨10, [10, 11, 12, 13, 14], some [10, 10]⟩, true, []⟩
 /-- the same leader receiving two more bytes while its stream reader is open -/
 def lGrow : Leader Nat := { lEx with tail := [15, 16] }
 /-- the follower process was following run id B (bytes 8..15 of B) -/
@@ -244,6 +486,18 @@ example : (session .disk lGrow fPrefix [] 10 0 3).store.dirs = [("idA", some ⟨
 example : (session .disk lEx fOld [] 10 0 3).store.dirs = [("idA", some ⟨10, [10, 11, 12, 13, 14], some [10, 10]⟩)] := by decide
 -- … and an interrupted snapshot transfer leaves nothing
 example : (session .mem lEx fOld [1] 3 0 3).store.dirs = [("idA", none)] := by decide
+-- position collected at a leader without snapshot: the old part is discarded
+example : (session .disk { lEx with data := some ⟨10, [10, 11, 12], none⟩ } fOld [] 10 0 3).store.dirs
+    = [("idA", some ⟨13, [], none⟩)] ∨ (session .disk { lEx with data := some ⟨10, [10, 11, 12], none⟩ } fOld [] 10 0 3).store.dirs
+    = [("idA", none)] := by decide
+example : (session .disk { lGrow with data := some ⟨10, [10, 11, 12, 13, 14], none⟩ } fOld [] 10 0 3).store.dirs
+    = [("idA", some ⟨15, [15, 16], none⟩)] := by decide
+-- bytes lost in the follower's pipe at an abrupt cut (memory backend): still a prefix
+example : (session .mem lEx fPrefix [1, 2] 4 2 3).store.dirs = [("idA", some ⟨9, [9, 10, 11, 12], none⟩)] := by decide
+-- the leader's input resynchronises under idB between StartPoint and NewReader of the second
+-- request: the (repaired) leader answers ERROR, nothing of idB reaches the follower
+example : (sessionV .disk (fun n => if n = 1 then ⟨lEx, lEx, { lEx with cur := "idB", inputIds := ["idB"], data := some ⟨20, [], some [520]⟩ },
+      { lEx with cur := "idB", inputIds := ["idB"], data := some ⟨20, [], some [520]⟩ }⟩ else View.const lEx) ⟨"", []⟩ [] 10 0 3).cls = .error := by decide
 -- ahead: HANDOVER, cache untouched
 example : (session .disk lEx fAhead [] 10 0 3).cls = .takeover ∧ (session .disk lEx fAhead [] 10 0 3).store.dirs = fAhead.dirs := by decide
 -- the unrepaired relabelling would not be faithful: B's bytes are not A's
